@@ -100,6 +100,14 @@ func TestVerifC19(t *testing.T) {
 	_ = os.MkdirAll(dir, 0o755)
 	ca1 := vrt.NewCA(dir, "ca-configured")
 	ca2 := vrt.NewCA(dir, "ca-other")
+	// the host's system trust store is made observable: it holds exactly one throw-away "public" CA, so a configuration
+	// that silently falls back to the system roots admits the peers signed by it (the store is read once per process,
+	// at the first verification without an explicit pool)
+	sysDir := filepath.Join(dir, "system-roots-empty-dir")
+	_ = os.MkdirAll(sysDir, 0o755)
+	sysCA := vrt.NewCA(dir, "ca-host-system-store")
+	_ = os.Setenv("SSL_CERT_FILE", sysCA.Path)
+	_ = os.Setenv("SSL_CERT_DIR", sysDir)
 	both := []x509.ExtKeyUsage{x509.ExtKeyUsageClientAuth, x509.ExtKeyUsageServerAuth}
 	const serverName = "server.verif.test"
 	proxyCert := vrt.NewLeaf(dir, vrt.LeafOpts{Name: "proxy-own", Signer: ca1, DNS: []string{serverName, "proxy.verif.test"}, EKU: both})
@@ -270,6 +278,45 @@ func TestVerifC19(t *testing.T) {
 			res.Violate("tls/bad-ca-bundle-accepted/client+own-cert/"+bundle.name, fmt.Sprintf("GetClientTLSConfig (own certificate configured) accepted a %s CA bundle: RootCAs set=%v, so the host's system roots decide which servers are trusted", bundle.name, cfg.RootCAs != nil), map[string]any{"bundle": bundle.name, "own_cert": true})
 		}
 	}
+	// a self-signed certificate that is no CA (no basicConstraints) but asserts keyCertSign, as the whole bundle: not a CA
+	// bundle; if it were accepted the certificate itself would be a trusted leaf
+	pseudo := vrt.NewLeaf(dir, vrt.LeafOpts{Name: "selfsigned-keycertsign-no-basic-constraints", DNS: []string{serverName}, EKU: both, KeyUsage: x509.KeyUsageCertSign | x509.KeyUsageDigitalSignature})
+	evals++
+	nontrivial++
+	if cfg, err := GetServerTLSConfig(TLSConfig{CertificatePath: proxyCert.CertPath, KeyPath: proxyCert.KeyPath, RemoteCAPath: pseudo.CertPath}, logger); err == nil {
+		peer := &tls.Config{RootCAs: x509.NewCertPool(), ServerName: serverName, Certificates: []tls.Certificate{pseudo.TLSCert}}
+		peer.RootCAs.AddCert(ca1.Cert)
+		ok, _, _ := vfHandshake(cfg, peer)
+		res.Violate("tls/bad-ca-bundle-accepted/server/non-ca-certificate-with-keyCertSign", fmt.Sprintf("GetServerTLSConfig accepted a bundle holding only a self-signed certificate without basicConstraints (keyCertSign set); a client presenting that certificate is admitted: %v", ok), map[string]any{"bundle": "non-ca-keycertsign"})
+	}
+	evals++
+	nontrivial++
+	if cfg, err := GetClientTLSConfig(TLSConfig{RemoteCAPath: pseudo.CertPath, CAServerName: serverName}); err == nil {
+		ok, _, _ := vfHandshake(&tls.Config{Certificates: []tls.Certificate{pseudo.TLSCert}}, cfg.Clone())
+		res.Violate("tls/bad-ca-bundle-accepted/client/non-ca-certificate-with-keyCertSign", fmt.Sprintf("GetClientTLSConfig accepted a bundle holding only a self-signed certificate without basicConstraints (keyCertSign set); a server presenting that certificate is accepted: %v", ok), map[string]any{"bundle": "non-ca-keycertsign"})
+	}
+	// a listener with its own certificate, verification not disabled and no CA configured: there is no configured CA any
+	// peer could chain to, so either the configuration is refused or nobody is admitted - in particular not the peers the
+	// host's system store vouches for
+	sysClient := vrt.NewLeaf(dir, vrt.LeafOpts{Name: "client-signed-by-host-system-ca", Signer: sysCA, EKU: both})
+	for _, c := range []struct {
+		name string
+		leaf *vrt.Leaf
+	}{{"signed-by-a-CA-of-the-host-system-store", sysClient}, {"valid-chain-to-the-CA-used-elsewhere", clientCreds[0].leaf}, {"self-signed", clientCreds[1].leaf}} {
+		evals++
+		nontrivial++
+		cfg, err := GetServerTLSConfig(TLSConfig{CertificatePath: proxyCert.CertPath, KeyPath: proxyCert.KeyPath}, logger)
+		if err != nil || cfg == nil {
+			continue // refused at start-up
+		}
+		peer := &tls.Config{RootCAs: x509.NewCertPool(), ServerName: serverName}
+		peer.RootCAs.AddCert(ca1.Cert)
+		leaf := c.leaf.TLSCert
+		peer.GetClientCertificate = func(*tls.CertificateRequestInfo) (*tls.Certificate, error) { return &leaf, nil }
+		if ok, _, _ := vfHandshake(cfg, peer); ok {
+			res.Violate("tls/listener-without-configured-ca-admits-peer/"+c.name, fmt.Sprintf("server TLS block {certificate, key, no remoteCAPath, skipCAVerification not set} is accepted (ClientAuth=%v, ClientCAs set=%v) and the listener admits a client %s", cfg.ClientAuth, cfg.ClientCAs != nil, c.name), map[string]any{"role": "server", "shape": "no-ca-path", "peer": c.name})
+		}
+	}
 	// two configurations with different CAs in one process must not influence each other
 	other, err := GetClientTLSConfig(TLSConfig{RemoteCAPath: ca2.Path, CAServerName: serverName})
 	if err == nil {
@@ -289,7 +336,7 @@ func TestVerifC19(t *testing.T) {
 	}
 	res.Set("evaluations", evals)
 	res.Set("distinct_nontrivial", nontrivial)
-	res.Set("rule", "server role: GetServerTLSConfig{cert,key,CA} x {verification on, skipCAVerification} x client credential {valid chain, self-signed, other CA, expired, not yet valid, wrong usage, none} x {normal peer, peer that sends its certificate regardless of the CA hint} x {TLS1.3, TLS1.2}; client role: GetClientTLSConfig{CA, server name} x {verification on, skip} x {own certificate or not} x server credential {valid, valid chain wrong name, self-signed, other CA, expired, wrong usage} x {TLS1.3, TLS1.2}; CA bundle variants at config time; two configs with different CAs in one process. Success = handshake and one application byte in each direction on both ends. non-trivial = cases that must be refused")
+	res.Set("rule", "server role: GetServerTLSConfig{cert,key,CA} x {verification on, skipCAVerification} x client credential {valid chain, self-signed, other CA, expired, not yet valid, wrong usage, none} x {normal peer, peer that sends its certificate regardless of the CA hint} x {TLS1.3, TLS1.2}; client role: GetClientTLSConfig{CA, server name} x {verification on, skip} x {own certificate or not} x server credential {valid, valid chain wrong name, self-signed, other CA, expired, wrong usage} x {TLS1.3, TLS1.2}; CA bundle variants at config time (leaf only, empty, missing file, a self-signed non-CA certificate asserting keyCertSign); a listener with its own certificate, verification on and no CA path; the host's system trust store holds one throw-away CA so that any fall-back to it is observable; two configs with different CAs in one process. Success = handshake and one application byte in each direction on both ends. non-trivial = cases that must be refused")
 	res.Set("exhaustive", true)
 	res.Sample(map[string]any{"role": "server", "peer": "self-signed", "skip_verification": false, "peer_insists": true})
 	res.Sample(map[string]any{"role": "client", "peer": "valid-chain-wrong-name", "skip_verification": false})
